@@ -7,6 +7,7 @@
 #include <csignal>
 #include <dirent.h>
 #include <sys/personality.h>
+#include <sys/resource.h>
 #include <unistd.h>
 
 using namespace sb;
@@ -965,6 +966,17 @@ int main(int argc, char **argv) {
 	// identical addresses in every process: disable ASLR once and re-execute
 	if (!getenv("SIMB_NOASLR_DONE")) {
 		setenv("SIMB_NOASLR_DONE", "1", 1);
+		if (sanitized_build()) {
+			// instrumented frames are several times larger than the real ones: give the sanitized build a stack
+			// in proportion, so that nesting the real binary handles (10^4, C19's bound) is not reported as overflow
+			struct rlimit rl;
+			if (getrlimit(RLIMIT_STACK, &rl) == 0) {
+				rlim_t want = (rlim_t)1 << 30;
+				if (rl.rlim_max != RLIM_INFINITY && want > rl.rlim_max) want = rl.rlim_max;
+				rl.rlim_cur = want;
+				setrlimit(RLIMIT_STACK, &rl);
+			}
+		}
 		int pers = personality(0xffffffff);
 		if (pers != -1 && !(pers & ADDR_NO_RANDOMIZE) && personality(pers | ADDR_NO_RANDOMIZE) != -1) execv("/proc/self/exe", argv);
 	}
